@@ -68,7 +68,18 @@ func checkC07(c *Ctx) error {
 			if ref.MaxDepth > c.Ev.Get("max_mode_stack_depth_seen") {
 				c.Ev.Count("max_mode_stack_depth_seen", ref.MaxDepth-c.Ev.Get("max_mode_stack_depth_seen"))
 			}
-			return compareFires(ref, obs)
+			if diff := compareFires(ref, obs); diff != "" {
+				return diff
+			}
+			// After a lexical error the driver resets the machine: lexing goes
+			// on in the default mode, and no push is pending any more. A mode
+			// stack that survives the reset lets a later @pop_mode return to a
+			// mode no matching push entered.
+			c.Ev.Count("resets_observed", obs.Resets)
+			if obs.ResetDirty > 0 {
+				return fmt.Sprintf("%d of %d Reset() calls left the machine outside the default mode or with a non-empty mode stack (depth up to %d)", obs.ResetDirty, obs.Resets, obs.DirtyDepth)
+			}
+			return ""
 		},
 	})
 }
